@@ -597,6 +597,7 @@ class Engine:
             m = re.match(r'\{(.*)\}$', rv[1], flags=re.S)
             s = Struct('coroutine', caps + [Opaque('coroutine-locals', {}), 0])
             s.f[-2].v.data['span'] = m.group(1) if m else rv[1]
+            s.f[-2].v.data['creator'] = f.name
             return s
         if k == 'struct':
             name = rv[1]; vals = [self.operand(f, fr, x) for x in rv[3]]
@@ -665,6 +666,14 @@ class Engine:
             # Trait::method(...) form or Type::trait_method
             fs = [f for (t, tr, me), v in self.by_impl.items() if t == tyname and me == m.group(2) for f in v]
             if len(fs) == 1: return ('func', fs[0])
+        # inherent impl generated by a macro (no parsable impl header at the span): `mod::_::<impl Type>::method`
+        m = re.match(r'(.*)::<impl ([\w:]+)>::(\w+)$', c)
+        if m:
+            pre, tyname, meth = m.group(1), m.group(2).split('::')[-1], m.group(3)
+            cands = [f for n, f in self.mir.funcs.items()
+                     if n.endswith('>::' + meth) and '<impl at ' in n and (n.startswith(pre + '::') or n.split('::<impl at')[0].endswith(pre))
+                     and f.params and re.search(r'\b%s\b' % re.escape(tyname), f.local_ty[f.params[0]])]
+            if len(cands) == 1: return ('func', cands[0])
         # free function: match by path suffix
         cands = [f for n, f in self.mir.funcs.items() if n == c or n.endswith('::' + c) or c.endswith('::' + n)]
         if len(cands) == 1: return ('func', cands[0])
@@ -758,13 +767,31 @@ class Engine:
         key = m.group(1) if m else span
         for sp, f in self.closure_by_span.items():
             if key in sp: return f
+        # `async fn`: the body is closure#0 of the function that built the coroutine value
+        creator = co.f[-2].v.data.get('creator')
+        if creator:
+            cands = [g for g in self.mir.all_funcs if g.name == creator + '::{closure#0}']
+            if len(cands) == 1 and cands[0].params and 'async fn body' in cands[0].local_ty[cands[0].params[0]]: return cands[0]
         raise Unmodelled('coroutine body for %s not found' % span)
 
     def poll(self, fut):
         """poll a future value once: returns the Poll enum"""
         co = un(fut)
-        if isinstance(co, Struct) and co.name == 'Pin': co = un(co.f[0].v)
+        while isinstance(co, Struct) and co.name == 'Pin': fut = co.f[0].v; co = un(fut)
         if isinstance(co, PyObj): return co.mir_call(self, 'Future', 'poll', [fut])
+        if isinstance(co, Enum) and co.name == 'Either': return self.poll(Ref(co.f[0]))
+        if isinstance(co, Struct) and co.name == 'OneshotReceiver':
+            ch = co.f[0].v.cell
+            if ch.v is None:
+                if getattr(co.f[0].v, 'sender_dropped', False) or ch in getattr(self, 'dropped_senders', ()):
+                    return Enum('Poll', 0, [Err(Struct('Canceled', []))])
+                return Enum('Poll', 1)
+            return Enum('Poll', 0, [Ok(ch.v)])
+        if isinstance(co, (Struct, Enum)) and co.name != 'coroutine':
+            fs = self.by_impl.get((co.name, 'Future', 'poll'))
+            if fs and len(fs) == 1:
+                cell = fut.cell if isinstance(fut, Ref) and fut.cell.v is co else Cell(co)
+                return self.run_func(fs[0], [Struct('Pin', [Ref(cell)]), Opaque('Context')])
         if not (isinstance(co, Struct) and co.name == 'coroutine'): raise Unmodelled('poll of %r' % (co,))
         f = self.coroutine_fn(co)
         cell = fut.cell if isinstance(fut, Ref) and fut.cell.v is co else Cell(co)
@@ -831,6 +858,9 @@ class Engine:
             return Ref(Cell(self.default_value(ty[ty.index('<') + 1:-1])), 'Arc' if ty[0] != 'B' else 'Box')
         if ty.startswith('(') and ty.endswith(')'):
             return Struct('()', [self.default_value(t) for t in scan_split(ty[1:-1])])
+        am = re.fullmatch(r'\[(.*); (\d+)\]', ty, flags=re.S)
+        if am:
+            return Struct('[]', [self.default_value(am.group(1)) for _ in range(int(am.group(2)))])
         tn = strip_generics(re.sub(r'<.*>$', '', ty, flags=re.S)).split('::')[-1]
         tn = self.generic_env.get(tn, tn)
         fs = self.by_impl.get((tn, 'Default', 'default'))
